@@ -45,6 +45,22 @@ class GlobalsWrapper():
         else:
             raise NameError(name)
 
+class GlobalsWithFallback(dict):
+    ''' Globals of the evaluated code for interpreters whose bytecode is not patched (see ``EvalNode._patch_access_to_globals``):
+        a name which is not defined in the dict itself is resolved by ``GlobalsWrapper`` (top-level config entries),
+        names unknown to it as well are left to the interpreter (builtins, ``NameError``).
+    '''
+    def __init__(self, gbls, wrapper):
+        super().__init__(gbls)
+        self._wrapper = wrapper
+
+    def __missing__(self, name):
+        wrapper = self._wrapper
+        if name in wrapper.ecfg._cfgobj:
+            return getattr(wrapper, name)
+        raise KeyError(name)
+
+
 class EvalNode(ConfigScalar(str)):
     ''' Implements ``!eval`` tag.
 
@@ -101,7 +117,14 @@ class EvalNode(ConfigScalar(str)):
         gbls.update(ctx.get_eval_symbols())
         gbls.update({ '__name__': eval_module_name, '__file__': self._source_file })
 
-        gbls[EvalNode._globals_wrapper_name] = GlobalsWrapper(gbls, ctx.ecfg, ctx, self, path)
+        # redirecting access to global names by patching the bytecode is only implemented for Python <= 3.11
+        # (newer interpreters changed the layout again: shifted LOAD_ATTR arguments, more inline caches, ...),
+        # for newer versions run the unmodified code with a dict which resolves missing names on its own
+        patch_bytecode = not python_is_at_least(3, 12)
+        if patch_bytecode:
+            gbls[EvalNode._globals_wrapper_name] = GlobalsWrapper(gbls, ctx.ecfg, ctx, self, path)
+        else:
+            gbls = GlobalsWithFallback(gbls, GlobalsWrapper(gbls, ctx.ecfg, ctx, self, path))
 
         lines = self.strip().split('\n')
         lines = [lline for line in lines for lline in line.split(';')]
@@ -113,10 +136,11 @@ class EvalNode(ConfigScalar(str)):
         try:
             exec_code = compile(exec_lines, code_filename, 'exec')
             eval_code = compile(eval_line, code_filename, 'eval')
-            exec_code_patched, _ = EvalNode._patch_access_to_globals(exec_code)
-            eval_code_patched, _ = EvalNode._patch_access_to_globals(eval_code)
-            exec(exec_code_patched, gbls)
-            ret = eval(eval_code_patched, gbls)
+            if patch_bytecode:
+                exec_code, _ = EvalNode._patch_access_to_globals(exec_code)
+                eval_code, _ = EvalNode._patch_access_to_globals(eval_code)
+            exec(exec_code, gbls)
+            ret = eval(eval_code, gbls)
         except EvalError as e:
             code = f'=== CODE BEGINS ===\n{os.linesep.join(lines)}\n=== CODE ENDS ==='
             if e.node is self:
@@ -128,7 +152,7 @@ class EvalNode(ConfigScalar(str)):
             code = f'=== CODE BEGINS ===\n{os.linesep.join(lines)}\n=== CODE ENDS ==='
             raise EvalError('The above exception occurred in the user code.', self, path, note=code) from e
 
-        del gbls[EvalNode._globals_wrapper_name]
+        gbls.pop(EvalNode._globals_wrapper_name, None)
 
         if len(lines) > 1 and self.persistent_namespace:
             eval_node_module = types.ModuleType(eval_module_name, 'Dynamic module to evaluate awesomeyaml !eval node')
